@@ -545,6 +545,13 @@ func taskScheduleHandler() {
 			}
 			t := e.Value.(*Task) //nolint:forcetypeassert // Can only be *Task.
 
+			// The timer may have been set for a task that has been removed
+			// from the schedule in the meantime: check if the task is due.
+			if time.Until(t.executeAt) > 0 {
+				scheduleLock.Unlock()
+				continue
+			}
+
 			// process Task
 			if t.overtime {
 				// already queued and maxDelay reached
